@@ -584,8 +584,7 @@ def replay_fingerprint(ctx, rp):
 PARTS = [part_fingerprint]
 # hook points: parts built by other builders (database fold, fingerprinter route)
 for _name in ('c07_extra', 'c07_db', 'c07_fprinter'):
-    if importlib.util.find_spec('props.' + _name) is not None:
-        PARTS.append(importlib.import_module('props.' + _name).part)
+    PARTS.append(importlib.import_module('props.' + _name).part)          # a missing or broken part fails the check
 
 
 def run(ctx):
@@ -600,10 +599,9 @@ def run(ctx):
 REPLAYERS = [replay_fingerprint]
 # parts built by others may expose `replay_case(ctx, rp) -> handled(bool)` next to `part(ctx)`
 for _name in ('c07_extra', 'c07_db', 'c07_fprinter'):
-    if importlib.util.find_spec('props.' + _name) is not None:
-        _m = importlib.import_module('props.' + _name)
-        if hasattr(_m, 'replay_case'):
-            REPLAYERS.append(_m.replay_case)
+    _m = importlib.import_module('props.' + _name)
+    if hasattr(_m, 'replay_case'):
+        REPLAYERS.append(_m.replay_case)
 
 
 def replay(ctx, path):
